@@ -10,6 +10,9 @@ import itertools
 
 from .. import tt
 from .. import semantic as S
+from .. import pollute
+
+BEFORE_CASE = pollute.wreck        # state-leak adversary: see vmon/pollute.py
 
 RULE = ("family x parameters x formula class (CNF, OPB) x graph representation (cnfgen / networkx): php m,n in 0..4 x "
         "functional x onto; graph php and subset cardinality on every bipartite graph with sides <= 3 (<= (3,2) in quick) "
@@ -540,7 +543,9 @@ def workload(tier, seed):
             masks = [m for m in masks if bin(m).count("1") <= 22]
             for ch in chunks(masks, 50):
                 yield "matching", {"cls": cls, "n": 7, "masks": ch, "as_nx": False}
-        for (m_, n_) in ((2, 257), (2, 1025), (3, 600)) if quick else ((2, 257), (2, 513), (2, 1025), (2, 2049), (3, 600), (3, 1030), (2, 4097)):
+        for (m_, n_) in ((2, 257), (2, 1025), (3, 600), (2, 65539)) if quick else (
+                (2, 257), (2, 513), (2, 1025), (2, 2049), (3, 600), (3, 1030), (2, 4097), (2, 40000), (2, 65536), (2, 65537),
+                (2, 65539), (3, 70001), (2, 131073), (2, 262145)):
             yield "bphp_wide", {"cls": cls, "m": m_, "n": n_}
         for i in range(2 if quick else 16):
             yield "history", {"cls": cls, "rseed": seed * 100 + i}
@@ -550,11 +555,12 @@ def workload(tier, seed):
 
 # ------------------------------------------------------------------ beyond the cap: more families at realistic sizes
 def sampled_compare(ctx, fam, desc, F, assignments, predicate, key):
-    from ..refmodels.names import eval_formula
+    from ..refmodels.names import eval_formula, Evaluator
     nt = nf = 0
+    ev = Evaluator(F) if len(F) > 20000 else None
     for t in assignments:
         exp = predicate(t)
-        got = eval_formula(F, t)
+        got = ev.value(t) if ev else eval_formula(F, t)
         ctx.count("sampled_assignments")
         nt, nf = nt + bool(exp), nf + (not exp)
         if got != exp:
@@ -750,7 +756,7 @@ def case_history(ctx, cls, rseed):
 
 
 def case_bphp_wide(ctx, cls, m, n):
-    """BinaryPigeonholePrinciple with many holes (9-12 bits): pigeons sent to chosen holes against the principle."""
+    """BinaryPigeonholePrinciple with many holes (9-19 bits): pigeons sent to chosen holes against the principle."""
     K = S.formula_classes()[cls]
     g = gens()
     r = ctx.rng("c01bphpwide", cls, m, n)
@@ -768,7 +774,7 @@ def case_bphp_wide(ctx, cls, m, n):
     if len(v) != m * bits or F.number_of_variables() != m * bits:
         ctx.violation("bphp:numvar", "%s has %d variables, expected %d" % (desc, F.number_of_variables(), m * bits))
         return
-    special = sorted({0, 1, 2, 3, n - 2, n - 1, n, n + 1, (1 << bits) - 1, 1 << (bits - 1), 1024, 1025, 256, 257} | {r.randrange(1 << bits) for _ in range(6)})
+    special = sorted({0, 1, 2, 3, n - 2, n - 1, n, n + 1, (1 << bits) - 1, 1 << (bits - 1), 1024, 1025, 256, 257, 3, 5, 6, 65535, 65536, 65537, 65538, 43690, 21845} | {r.randrange(1 << bits) for _ in range(6)})
     special = [h for h in special if 0 <= h < (1 << bits)]
     pool = []
     for _ in range(60):
